@@ -624,6 +624,15 @@ pub fn record_c13(rng: &mut Rng, count: u64, out: &mut Out) {
       let a = (cell_size(depth) * rng.range(0.02, 2.5)).min(1.5);
       (lo, la, a, a * *rng.pick(&[0.3, 0.1, 0.01, 1.0]), depth, if rng.below(4) == 0 { (1 + rng.below(2) as u8).min(29 - depth) } else { 0 }, "cellcentre")
     } else { (lon, lat, a, b, depth, dd, class) };
+    // class "cap-circular": a circular cone (a = b) centred in a polar cap, at shallow depths, from a tenth of a cell to 15 cells:
+    // the circular case has a no-miss clause, and in the caps the cell-size bounds it relies on are the least generous
+    let (lon, lat, a, b, depth, dd, class) = if class != "cellcentre" && rng.below(5) == 0 {
+      let depth = 1 + rng.below(8) as u8;
+      let a = cell_size(depth) * (if rng.bool() { rng.range(0.1, 0.9) } else { rng.range(0.9, 15.0) });
+      let sgn = if rng.bool() { 1.0 } else { -1.0 };
+      let lat = sgn * rng.range(0.7297276562269663, HALF_PI - 1e-6);
+      (rng.range(0.0, TWO_PI), lat, a.min(1.5), a.min(1.5), depth, if rng.below(4) == 0 { 1 } else { 0 }, "cap-circular")
+    } else { (lon, lat, a, b, depth, dd, class) };
     if let Some(ev) = ellipse_event(rng, depth, dd, lon, lat, a, b, pa, class) { out.emit(ev); }
   }
 }
